@@ -954,6 +954,7 @@ func c18Fixed(env *core.Env, totality bool) {
 	defer env.In("patch", c18Case{TN: "fixed"})()
 	c18ForeignValues(env, prop)
 	c18ZeroScalars(env, prop)
+	c18UnsetChoice(env, prop)
 	if !totality {
 		c18MultiParent(env)
 	}
@@ -1082,6 +1083,57 @@ func c18Fixed(env *core.Env, totality bool) {
 		}
 		if !c.absent && !strings.HasPrefix(c.name, "Move") && perr == nil && c.name != "Add(nil options)" {
 			env.Violatef("C18/fixed/succeeded-on-invalid-operation", "patch.%s returned nil", c.name)
+		}
+	}
+}
+
+// c18UnsetChoice: targets that are choice wrappers present without a member (value[x] / deceased[x] / multipleBirth[x]
+// built as an empty wrapper, or with a selected case holding no message): no operation crashes, and an operation that
+// returns an error leaves the resource as it was.
+func c18UnsetChoice(env *core.Env, prop string) {
+	mk := func() *ppb.Patient {
+		p := gen.StdPatient()
+		p.Extension = append([]*dtpb.Extension{{Url: &dtpb.Uri{Value: "http://u/unset"}, Value: &dtpb.Extension_ValueX{}}, {Url: &dtpb.Uri{Value: "http://u/nilmember"}, Value: &dtpb.Extension_ValueX{Choice: &dtpb.Extension_ValueX_StringValue{}}}}, p.Extension...)
+		p.Deceased = &ppb.Patient_DeceasedX{}
+		p.MultipleBirth = &ppb.Patient_MultipleBirthX{Choice: &ppb.Patient_MultipleBirthX_Integer{}}
+		return p
+	}
+	sv := &dtpb.String{Value: "new"}
+	ops := []struct {
+		name string
+		f    func(r fhir.Resource) error
+	}{
+		{"Delete(extension[0].value, empty wrapper)", func(r fhir.Resource) error { return patch.Delete(r, "Patient.extension[0].value") }},
+		{"Replace(extension[0].value, empty wrapper)", func(r fhir.Resource) error { return patch.Replace(r, "Patient.extension[0].value", sv) }},
+		{"Add(extension[0].value, empty wrapper)", func(r fhir.Resource) error { return patch.Add(r, "Patient.extension[0]", "value", sv, &patch.Options{}) }},
+		{"Insert(extension[0].value, empty wrapper)", func(r fhir.Resource) error { return patch.Insert(r, "Patient.extension[0].value", sv, 0) }},
+		{"Delete(extension[1].value, nil member)", func(r fhir.Resource) error { return patch.Delete(r, "Patient.extension[1].value") }},
+		{"Replace(extension[1].value, nil member)", func(r fhir.Resource) error { return patch.Replace(r, "Patient.extension[1].value", sv) }},
+		{"Add(extension[1].value, nil member)", func(r fhir.Resource) error { return patch.Add(r, "Patient.extension[1]", "value", sv, &patch.Options{}) }},
+		{"Delete(deceased, empty wrapper)", func(r fhir.Resource) error { return patch.Delete(r, "Patient.deceased") }},
+		{"Replace(deceased, empty wrapper)", func(r fhir.Resource) error { return patch.Replace(r, "Patient.deceased", &dtpb.Boolean{Value: true}) }},
+		{"Add(deceased, empty wrapper)", func(r fhir.Resource) error { return patch.Add(r, "Patient", "deceased", &dtpb.Boolean{Value: true}, &patch.Options{}) }},
+		{"Delete(multipleBirth, nil member)", func(r fhir.Resource) error { return patch.Delete(r, "Patient.multipleBirth") }},
+		{"Replace(multipleBirth, nil member)", func(r fhir.Resource) error { return patch.Replace(r, "Patient.multipleBirth", &dtpb.Integer{Value: 2}) }},
+		{"Delete(extension.value, all)", func(r fhir.Resource) error { return patch.Delete(r, "Patient.extension.where(url = 'http://u/unset').value") }},
+		{"Delete(children of the extension)", func(r fhir.Resource) error { return patch.Delete(r, "Patient.extension[0].children()") }},
+	}
+	for _, c := range ops {
+		r := mk()
+		before := protoBytes(r)
+		var perr error
+		out := env.Guard("patch."+c.name, func() { perr = c.f(r) })
+		env.Eval(1)
+		env.Case()
+		env.Cover("unset-choice-target")
+		if out.Panicked || out.Dead {
+			if !out.Dead {
+				env.Violatef(prop+"/panic@"+out.Site+"/"+core.NormMsg(out.PanicMsg), "patch.%s panicked: %s", c.name, out.PanicMsg)
+			}
+			continue
+		}
+		if prop == "C18" && perr != nil && protoBytes(r) != before {
+			env.Violatef("C18/unset-choice/error-mutated", "patch.%s returned %v but the resource changed", c.name, perr)
 		}
 	}
 }
